@@ -110,7 +110,10 @@ func c01Print(e *c01E, st c01Style) string {
 		p := c01Prec(e)
 		return wrap(e.x, c01Prec(e.x) < p) + " " + e.name + " " + wrap(e.y, c01Prec(e.y) <= p)
 	case '!':
-		if c01Prec(e.x) == 9 && e.x.k != '!' && !st.full {
+		// govaluate's tokenizer refuses a string literal directly behind the prefix (`!"x"`: "cannot
+		// transition token types from PREFIX to STRING"); in parentheses it parses and is a type
+		// error only when it is evaluated, which is what the AST handed to the model says
+		if c01Prec(e.x) == 9 && e.x.k != '!' && e.x.k != 's' && !st.full {
 			return "!" + c01Print(e.x, st)
 		}
 		return "!(" + c01Print(e.x, st) + ")"
